@@ -59,6 +59,9 @@ type State struct {
 	epoch  string
 	gepoch string // epoch of the ghost ("G$") arrays: they survive calls into library code
 	id     int
+	// released: mutexes (type#ref#field) this path has unlocked: when one is locked again, other
+	// goroutines may have run in between, so the fields it guards are arbitrary (interference)
+	released map[string]bool
 }
 
 // epochOf: which epoch's base array a heap key reads when it has not been written since.
@@ -109,6 +112,12 @@ func (st *State) knows(term string) bool {
 
 func (st *State) clone() *State {
 	n := &State{pc: append([]string(nil), st.pc...), vars: make(map[types.Object]*Val, len(st.vars)), heap: make(map[string]string, len(st.heap)), defers: append([]deferred(nil), st.defers...), epoch: st.epoch, gepoch: st.gepoch}
+	if len(st.released) > 0 {
+		n.released = map[string]bool{}
+		for k := range st.released {
+			n.released[k] = true
+		}
+	}
 	for k, v := range st.vars {
 		n.vars[k] = v
 	}
@@ -709,6 +718,15 @@ func (ex *Exec) merge2(a, b *State) *State {
 	}
 	cond := ex.def("br", "Bool", ca)
 	out := &State{pc: append([]string(nil), a.pc[:n]...), vars: map[types.Object]*Val{}, heap: map[string]string{}, defers: a.defers, epoch: a.epoch, gepoch: a.gepoch}
+	if len(a.released)+len(b.released) > 0 {
+		out.released = map[string]bool{}
+		for k := range a.released {
+			out.released[k] = true
+		}
+		for k := range b.released {
+			out.released[k] = true
+		}
+	}
 	out.assume(or(cond, cb))
 	for k, va := range a.vars {
 		vb, ok := b.vars[k]
